@@ -21,7 +21,7 @@ RULE = (
     "over all bound sequences of length <= 6. Non-trivial = type with a linear leaf or an extension type with a "
     "from-params bound; distinct by canonical JSON."
 )
-ASSUMPTIONS = ["from-params index lists only name type parameters (the reference implementation panics otherwise)"]
+ASSUMPTIONS = ["a from-params index naming an argument that is not a type contributes nothing to the join (hugr-py's reading of 'the type arguments its definition names'; the reference implementation rejects such definitions)"]
 
 
 def dump(m):
